@@ -452,4 +452,731 @@ theorem de91 (U : Unicode) (hU : U.WF) (d1 d2 d3 d4 d5 d6 d7 d8 d9 d10 : Nat)
   cases rule06 (dot [2, 3, 4, 0, 5, 6, 7, 8, 9, 10] [d10, d9, d8, d7, d6, d5, d4, d3, d2, d1]) d7 <;>
   cases rule06 (dot [2, 4, 8, 5, 10, 9] [d6, d5, d4, d3, d2, d1]) d7 <;> rfl
 
+set_option maxHeartbeats 16000000 in
+/-- Method 24 (see `Spec.de24`). -/
+theorem de24 (U : Unicode) (hU : U.WF) (d1 d2 d3 d4 d5 d6 d7 d8 d9 d10 : Nat)
+    (h1 : d1 < 10) (h2 : d2 < 10) (h3 : d3 < 10) (h4 : d4 < 10) (h5 : d5 < 10) (h6 : d6 < 10)
+    (h7 : d7 < 10) (h8 : d8 < 10) (h9 : d9 < 10) (h10 : d10 < 10) (sc : Scratch) :
+    deVerdict (Gen.de_DE_24.validateM U [acct d1 d2 d3 d4 d5 d6 d7 d8 d9 d10] sc).2 = true ∧
+    deAccepts (Gen.de_DE_24.validateM U [acct d1 d2 d3 d4 d5 d6 d7 d8 d9 d10] sc).2 =
+      Spec.de24 [d1, d2, d3, d4, d5, d6, d7, d8, d9] d10 := by
+  have hw1 : cycleWeights Gen.de_DE_24.weights 1 = [1] := by decide
+  have hw2 : cycleWeights Gen.de_DE_24.weights 2 = [1, 2] := by decide
+  have hw3 : cycleWeights Gen.de_DE_24.weights 3 = [1, 2, 3] := by decide
+  have hw4 : cycleWeights Gen.de_DE_24.weights 4 = [1, 2, 3, 1] := by decide
+  have hw5 : cycleWeights Gen.de_DE_24.weights 5 = [1, 2, 3, 1, 2] := by decide
+  have hw6 : cycleWeights Gen.de_DE_24.weights 6 = [1, 2, 3, 1, 2, 3] := by decide
+  have hw7 : cycleWeights Gen.de_DE_24.weights 7 = [1, 2, 3, 1, 2, 3, 1] := by decide
+  have hw8 : cycleWeights Gen.de_DE_24.weights 8 = [1, 2, 3, 1, 2, 3, 1, 2] := by decide
+  have hw9 : cycleWeights Gen.de_DE_24.weights 9 = [1, 2, 3, 1, 2, 3, 1, 2, 3] := by decide
+  simp only [Gen.de_DE_24] at hw1 hw2 hw3 hw4 hw5 hw6 hw7 hw8 hw9
+  have i0 : U.intChar 48 = .ok 0 := intChar_ascii hU (by decide : 0 < 10)
+  have i9 : U.intChar 57 = .ok 9 := intChar_ascii hU (by decide : 9 < 10)
+  by_cases hA : ((d1 = 3 ∨ d1 = 4) ∨ d1 = 5) ∨ d1 = 6
+  · have hn9 : ¬ d1 = 9 := by omega
+    have hA' : d1 = 3 ∨ d1 = 4 ∨ d1 = 5 ∨ d1 = 6 := by omega
+    by_cases z2 : d2 = 0
+    · subst z2
+      by_cases z3 : d3 = 0
+      · subst z3
+        by_cases z4 : d4 = 0
+        · subst z4
+          by_cases z5 : d5 = 0
+          · subst z5
+            by_cases z6 : d6 = 0
+            · subst z6
+              by_cases z7 : d7 = 0
+              · subst z7
+                by_cases z8 : d8 = 0
+                · subst z8
+                  by_cases z9 : d9 = 0
+                  · subst z9
+                    de_simp [Gen.de_DE_24, lstrip0, Spec.de24, dot24, dropZeros, hw1, hw2, hw3, hw4, hw5, hw6, hw7, hw8, hw9, i0, i9, hA, hA', hn9, intChar_ascii hU, h1, h2, h3, h4, h5, h6, h7, h8, h9, h10]
+                    clear hw1 hw2 hw3 hw4 hw5 hw6 hw7 hw8 hw9
+                    simp only [natToInt]
+                    revert h10; revert d10
+                    decide +kernel
+                  · have nz9 : ¬ (48 + d9 = 48) := by omega
+                    de_simp [Gen.de_DE_24, lstrip0, Spec.de24, dot24, dropZeros, hw1, hw2, hw3, hw4, hw5, hw6, hw7, hw8, hw9, i0, i9, z9, nz9, hA, hA', hn9, intChar_ascii hU, h1, h2, h3, h4, h5, h6, h7, h8, h9, h10]
+                    clear hw1 hw2 hw3 hw4 hw5 hw6 hw7 hw8 hw9
+                    generalize (d9 + 1) % 11 = S
+                    have e : ((S : Int) % 10) = ((S % 10 : Nat) : Int) := by omega
+                    simp only [natToInt, e]
+                    have hr : S % 10 < 10 := Nat.mod_lt _ (by decide)
+                    generalize S % 10 = r at hr ⊢
+                    clear e
+                    revert hr; revert r; revert h10; revert d10
+                    decide +kernel
+                · have nz8 : ¬ (48 + d8 = 48) := by omega
+                  de_simp [Gen.de_DE_24, lstrip0, Spec.de24, dot24, dropZeros, hw1, hw2, hw3, hw4, hw5, hw6, hw7, hw8, hw9, i0, i9, z8, nz8, hA, hA', hn9, intChar_ascii hU, h1, h2, h3, h4, h5, h6, h7, h8, h9, h10]
+                  clear hw1 hw2 hw3 hw4 hw5 hw6 hw7 hw8 hw9
+                  generalize (d8 + 1) % 11 + ((d9 * 2 + 2) % 11) = S
+                  have e : ((S : Int) % 10) = ((S % 10 : Nat) : Int) := by omega
+                  simp only [natToInt, e]
+                  have hr : S % 10 < 10 := Nat.mod_lt _ (by decide)
+                  generalize S % 10 = r at hr ⊢
+                  clear e
+                  revert hr; revert r; revert h10; revert d10
+                  decide +kernel
+              · have nz7 : ¬ (48 + d7 = 48) := by omega
+                de_simp [Gen.de_DE_24, lstrip0, Spec.de24, dot24, dropZeros, hw1, hw2, hw3, hw4, hw5, hw6, hw7, hw8, hw9, i0, i9, z7, nz7, hA, hA', hn9, intChar_ascii hU, h1, h2, h3, h4, h5, h6, h7, h8, h9, h10]
+                clear hw1 hw2 hw3 hw4 hw5 hw6 hw7 hw8 hw9
+                generalize (d7 + 1) % 11 + ((d8 * 2 + 2) % 11 + ((d9 * 3 + 3) % 11)) = S
+                have e : ((S : Int) % 10) = ((S % 10 : Nat) : Int) := by omega
+                simp only [natToInt, e]
+                have hr : S % 10 < 10 := Nat.mod_lt _ (by decide)
+                generalize S % 10 = r at hr ⊢
+                clear e
+                revert hr; revert r; revert h10; revert d10
+                decide +kernel
+            · have nz6 : ¬ (48 + d6 = 48) := by omega
+              de_simp [Gen.de_DE_24, lstrip0, Spec.de24, dot24, dropZeros, hw1, hw2, hw3, hw4, hw5, hw6, hw7, hw8, hw9, i0, i9, z6, nz6, hA, hA', hn9, intChar_ascii hU, h1, h2, h3, h4, h5, h6, h7, h8, h9, h10]
+              clear hw1 hw2 hw3 hw4 hw5 hw6 hw7 hw8 hw9
+              generalize (d6 + 1) % 11 + ((d7 * 2 + 2) % 11 + ((d8 * 3 + 3) % 11 + ((d9 + 1) % 11))) = S
+              have e : ((S : Int) % 10) = ((S % 10 : Nat) : Int) := by omega
+              simp only [natToInt, e]
+              have hr : S % 10 < 10 := Nat.mod_lt _ (by decide)
+              generalize S % 10 = r at hr ⊢
+              clear e
+              revert hr; revert r; revert h10; revert d10
+              decide +kernel
+          · have nz5 : ¬ (48 + d5 = 48) := by omega
+            de_simp [Gen.de_DE_24, lstrip0, Spec.de24, dot24, dropZeros, hw1, hw2, hw3, hw4, hw5, hw6, hw7, hw8, hw9, i0, i9, z5, nz5, hA, hA', hn9, intChar_ascii hU, h1, h2, h3, h4, h5, h6, h7, h8, h9, h10]
+            clear hw1 hw2 hw3 hw4 hw5 hw6 hw7 hw8 hw9
+            generalize (d5 + 1) % 11 + ((d6 * 2 + 2) % 11 + ((d7 * 3 + 3) % 11 + ((d8 + 1) % 11 + ((d9 * 2 + 2) % 11)))) = S
+            have e : ((S : Int) % 10) = ((S % 10 : Nat) : Int) := by omega
+            simp only [natToInt, e]
+            have hr : S % 10 < 10 := Nat.mod_lt _ (by decide)
+            generalize S % 10 = r at hr ⊢
+            clear e
+            revert hr; revert r; revert h10; revert d10
+            decide +kernel
+        · have nz4 : ¬ (48 + d4 = 48) := by omega
+          de_simp [Gen.de_DE_24, lstrip0, Spec.de24, dot24, dropZeros, hw1, hw2, hw3, hw4, hw5, hw6, hw7, hw8, hw9, i0, i9, z4, nz4, hA, hA', hn9, intChar_ascii hU, h1, h2, h3, h4, h5, h6, h7, h8, h9, h10]
+          clear hw1 hw2 hw3 hw4 hw5 hw6 hw7 hw8 hw9
+          generalize (d4 + 1) % 11 + ((d5 * 2 + 2) % 11 + ((d6 * 3 + 3) % 11 + ((d7 + 1) % 11 + ((d8 * 2 + 2) % 11 + ((d9 * 3 + 3) % 11))))) = S
+          have e : ((S : Int) % 10) = ((S % 10 : Nat) : Int) := by omega
+          simp only [natToInt, e]
+          have hr : S % 10 < 10 := Nat.mod_lt _ (by decide)
+          generalize S % 10 = r at hr ⊢
+          clear e
+          revert hr; revert r; revert h10; revert d10
+          decide +kernel
+      · have nz3 : ¬ (48 + d3 = 48) := by omega
+        de_simp [Gen.de_DE_24, lstrip0, Spec.de24, dot24, dropZeros, hw1, hw2, hw3, hw4, hw5, hw6, hw7, hw8, hw9, i0, i9, z3, nz3, hA, hA', hn9, intChar_ascii hU, h1, h2, h3, h4, h5, h6, h7, h8, h9, h10]
+        clear hw1 hw2 hw3 hw4 hw5 hw6 hw7 hw8 hw9
+        generalize (d3 + 1) % 11 + ((d4 * 2 + 2) % 11 + ((d5 * 3 + 3) % 11 + ((d6 + 1) % 11 + ((d7 * 2 + 2) % 11 + ((d8 * 3 + 3) % 11 + ((d9 + 1) % 11)))))) = S
+        have e : ((S : Int) % 10) = ((S % 10 : Nat) : Int) := by omega
+        simp only [natToInt, e]
+        have hr : S % 10 < 10 := Nat.mod_lt _ (by decide)
+        generalize S % 10 = r at hr ⊢
+        clear e
+        revert hr; revert r; revert h10; revert d10
+        decide +kernel
+    · have nz2 : ¬ (48 + d2 = 48) := by omega
+      de_simp [Gen.de_DE_24, lstrip0, Spec.de24, dot24, dropZeros, hw1, hw2, hw3, hw4, hw5, hw6, hw7, hw8, hw9, i0, i9, z2, nz2, hA, hA', hn9, intChar_ascii hU, h1, h2, h3, h4, h5, h6, h7, h8, h9, h10]
+      clear hw1 hw2 hw3 hw4 hw5 hw6 hw7 hw8 hw9
+      generalize (d2 + 1) % 11 + ((d3 * 2 + 2) % 11 + ((d4 * 3 + 3) % 11 + ((d5 + 1) % 11 + ((d6 * 2 + 2) % 11 + ((d7 * 3 + 3) % 11 + ((d8 + 1) % 11 + ((d9 * 2 + 2) % 11))))))) = S
+      have e : ((S : Int) % 10) = ((S % 10 : Nat) : Int) := by omega
+      simp only [natToInt, e]
+      have hr : S % 10 < 10 := Nat.mod_lt _ (by decide)
+      generalize S % 10 = r at hr ⊢
+      clear e
+      revert hr; revert r; revert h10; revert d10
+      decide +kernel
+  · have hA' : ¬ (d1 = 3 ∨ d1 = 4 ∨ d1 = 5 ∨ d1 = 6) := by omega
+    by_cases g9 : d1 = 9
+    · subst g9
+      by_cases z4 : d4 = 0
+      · subst z4
+        by_cases z5 : d5 = 0
+        · subst z5
+          by_cases z6 : d6 = 0
+          · subst z6
+            by_cases z7 : d7 = 0
+            · subst z7
+              by_cases z8 : d8 = 0
+              · subst z8
+                by_cases z9 : d9 = 0
+                · subst z9
+                  de_simp [Gen.de_DE_24, lstrip0, Spec.de24, dot24, dropZeros, hw1, hw2, hw3, hw4, hw5, hw6, hw7, hw8, hw9, i0, i9, intChar_ascii hU, h1, h2, h3, h4, h5, h6, h7, h8, h9, h10]
+                  clear hw1 hw2 hw3 hw4 hw5 hw6 hw7 hw8 hw9
+                  simp only [natToInt]
+                  revert h10; revert d10
+                  decide +kernel
+                · have nz9 : ¬ (48 + d9 = 48) := by omega
+                  de_simp [Gen.de_DE_24, lstrip0, Spec.de24, dot24, dropZeros, hw1, hw2, hw3, hw4, hw5, hw6, hw7, hw8, hw9, i0, i9, z9, nz9, intChar_ascii hU, h1, h2, h3, h4, h5, h6, h7, h8, h9, h10]
+                  clear hw1 hw2 hw3 hw4 hw5 hw6 hw7 hw8 hw9
+                  generalize (d9 + 1) % 11 = S
+                  have e : ((S : Int) % 10) = ((S % 10 : Nat) : Int) := by omega
+                  simp only [natToInt, e]
+                  have hr : S % 10 < 10 := Nat.mod_lt _ (by decide)
+                  generalize S % 10 = r at hr ⊢
+                  clear e
+                  revert hr; revert r; revert h10; revert d10
+                  decide +kernel
+              · have nz8 : ¬ (48 + d8 = 48) := by omega
+                de_simp [Gen.de_DE_24, lstrip0, Spec.de24, dot24, dropZeros, hw1, hw2, hw3, hw4, hw5, hw6, hw7, hw8, hw9, i0, i9, z8, nz8, intChar_ascii hU, h1, h2, h3, h4, h5, h6, h7, h8, h9, h10]
+                clear hw1 hw2 hw3 hw4 hw5 hw6 hw7 hw8 hw9
+                generalize (d8 + 1) % 11 + ((d9 * 2 + 2) % 11) = S
+                have e : ((S : Int) % 10) = ((S % 10 : Nat) : Int) := by omega
+                simp only [natToInt, e]
+                have hr : S % 10 < 10 := Nat.mod_lt _ (by decide)
+                generalize S % 10 = r at hr ⊢
+                clear e
+                revert hr; revert r; revert h10; revert d10
+                decide +kernel
+            · have nz7 : ¬ (48 + d7 = 48) := by omega
+              de_simp [Gen.de_DE_24, lstrip0, Spec.de24, dot24, dropZeros, hw1, hw2, hw3, hw4, hw5, hw6, hw7, hw8, hw9, i0, i9, z7, nz7, intChar_ascii hU, h1, h2, h3, h4, h5, h6, h7, h8, h9, h10]
+              clear hw1 hw2 hw3 hw4 hw5 hw6 hw7 hw8 hw9
+              generalize (d7 + 1) % 11 + ((d8 * 2 + 2) % 11 + ((d9 * 3 + 3) % 11)) = S
+              have e : ((S : Int) % 10) = ((S % 10 : Nat) : Int) := by omega
+              simp only [natToInt, e]
+              have hr : S % 10 < 10 := Nat.mod_lt _ (by decide)
+              generalize S % 10 = r at hr ⊢
+              clear e
+              revert hr; revert r; revert h10; revert d10
+              decide +kernel
+          · have nz6 : ¬ (48 + d6 = 48) := by omega
+            de_simp [Gen.de_DE_24, lstrip0, Spec.de24, dot24, dropZeros, hw1, hw2, hw3, hw4, hw5, hw6, hw7, hw8, hw9, i0, i9, z6, nz6, intChar_ascii hU, h1, h2, h3, h4, h5, h6, h7, h8, h9, h10]
+            clear hw1 hw2 hw3 hw4 hw5 hw6 hw7 hw8 hw9
+            generalize (d6 + 1) % 11 + ((d7 * 2 + 2) % 11 + ((d8 * 3 + 3) % 11 + ((d9 + 1) % 11))) = S
+            have e : ((S : Int) % 10) = ((S % 10 : Nat) : Int) := by omega
+            simp only [natToInt, e]
+            have hr : S % 10 < 10 := Nat.mod_lt _ (by decide)
+            generalize S % 10 = r at hr ⊢
+            clear e
+            revert hr; revert r; revert h10; revert d10
+            decide +kernel
+        · have nz5 : ¬ (48 + d5 = 48) := by omega
+          de_simp [Gen.de_DE_24, lstrip0, Spec.de24, dot24, dropZeros, hw1, hw2, hw3, hw4, hw5, hw6, hw7, hw8, hw9, i0, i9, z5, nz5, intChar_ascii hU, h1, h2, h3, h4, h5, h6, h7, h8, h9, h10]
+          clear hw1 hw2 hw3 hw4 hw5 hw6 hw7 hw8 hw9
+          generalize (d5 + 1) % 11 + ((d6 * 2 + 2) % 11 + ((d7 * 3 + 3) % 11 + ((d8 + 1) % 11 + ((d9 * 2 + 2) % 11)))) = S
+          have e : ((S : Int) % 10) = ((S % 10 : Nat) : Int) := by omega
+          simp only [natToInt, e]
+          have hr : S % 10 < 10 := Nat.mod_lt _ (by decide)
+          generalize S % 10 = r at hr ⊢
+          clear e
+          revert hr; revert r; revert h10; revert d10
+          decide +kernel
+      · have nz4 : ¬ (48 + d4 = 48) := by omega
+        de_simp [Gen.de_DE_24, lstrip0, Spec.de24, dot24, dropZeros, hw1, hw2, hw3, hw4, hw5, hw6, hw7, hw8, hw9, i0, i9, z4, nz4, intChar_ascii hU, h1, h2, h3, h4, h5, h6, h7, h8, h9, h10]
+        clear hw1 hw2 hw3 hw4 hw5 hw6 hw7 hw8 hw9
+        generalize (d4 + 1) % 11 + ((d5 * 2 + 2) % 11 + ((d6 * 3 + 3) % 11 + ((d7 + 1) % 11 + ((d8 * 2 + 2) % 11 + ((d9 * 3 + 3) % 11))))) = S
+        have e : ((S : Int) % 10) = ((S % 10 : Nat) : Int) := by omega
+        simp only [natToInt, e]
+        have hr : S % 10 < 10 := Nat.mod_lt _ (by decide)
+        generalize S % 10 = r at hr ⊢
+        clear e
+        revert hr; revert r; revert h10; revert d10
+        decide +kernel
+    · by_cases z1 : d1 = 0
+      · subst z1
+        by_cases z2 : d2 = 0
+        · subst z2
+          by_cases z3 : d3 = 0
+          · subst z3
+            by_cases z4 : d4 = 0
+            · subst z4
+              by_cases z5 : d5 = 0
+              · subst z5
+                by_cases z6 : d6 = 0
+                · subst z6
+                  by_cases z7 : d7 = 0
+                  · subst z7
+                    by_cases z8 : d8 = 0
+                    · subst z8
+                      by_cases z9 : d9 = 0
+                      · subst z9
+                        de_simp [Gen.de_DE_24, lstrip0, Spec.de24, dot24, dropZeros, hw1, hw2, hw3, hw4, hw5, hw6, hw7, hw8, hw9, i0, i9, hA, hA', g9, intChar_ascii hU, h1, h2, h3, h4, h5, h6, h7, h8, h9, h10]
+                        clear hw1 hw2 hw3 hw4 hw5 hw6 hw7 hw8 hw9
+                        simp only [natToInt]
+                        revert h10; revert d10
+                        decide +kernel
+                      · have nz9 : ¬ (48 + d9 = 48) := by omega
+                        de_simp [Gen.de_DE_24, lstrip0, Spec.de24, dot24, dropZeros, hw1, hw2, hw3, hw4, hw5, hw6, hw7, hw8, hw9, i0, i9, z9, nz9, hA, hA', g9, intChar_ascii hU, h1, h2, h3, h4, h5, h6, h7, h8, h9, h10]
+                        clear hw1 hw2 hw3 hw4 hw5 hw6 hw7 hw8 hw9
+                        generalize (d9 + 1) % 11 = S
+                        have e : ((S : Int) % 10) = ((S % 10 : Nat) : Int) := by omega
+                        simp only [natToInt, e]
+                        have hr : S % 10 < 10 := Nat.mod_lt _ (by decide)
+                        generalize S % 10 = r at hr ⊢
+                        clear e
+                        revert hr; revert r; revert h10; revert d10
+                        decide +kernel
+                    · have nz8 : ¬ (48 + d8 = 48) := by omega
+                      de_simp [Gen.de_DE_24, lstrip0, Spec.de24, dot24, dropZeros, hw1, hw2, hw3, hw4, hw5, hw6, hw7, hw8, hw9, i0, i9, z8, nz8, hA, hA', g9, intChar_ascii hU, h1, h2, h3, h4, h5, h6, h7, h8, h9, h10]
+                      clear hw1 hw2 hw3 hw4 hw5 hw6 hw7 hw8 hw9
+                      generalize (d8 + 1) % 11 + ((d9 * 2 + 2) % 11) = S
+                      have e : ((S : Int) % 10) = ((S % 10 : Nat) : Int) := by omega
+                      simp only [natToInt, e]
+                      have hr : S % 10 < 10 := Nat.mod_lt _ (by decide)
+                      generalize S % 10 = r at hr ⊢
+                      clear e
+                      revert hr; revert r; revert h10; revert d10
+                      decide +kernel
+                  · have nz7 : ¬ (48 + d7 = 48) := by omega
+                    de_simp [Gen.de_DE_24, lstrip0, Spec.de24, dot24, dropZeros, hw1, hw2, hw3, hw4, hw5, hw6, hw7, hw8, hw9, i0, i9, z7, nz7, hA, hA', g9, intChar_ascii hU, h1, h2, h3, h4, h5, h6, h7, h8, h9, h10]
+                    clear hw1 hw2 hw3 hw4 hw5 hw6 hw7 hw8 hw9
+                    generalize (d7 + 1) % 11 + ((d8 * 2 + 2) % 11 + ((d9 * 3 + 3) % 11)) = S
+                    have e : ((S : Int) % 10) = ((S % 10 : Nat) : Int) := by omega
+                    simp only [natToInt, e]
+                    have hr : S % 10 < 10 := Nat.mod_lt _ (by decide)
+                    generalize S % 10 = r at hr ⊢
+                    clear e
+                    revert hr; revert r; revert h10; revert d10
+                    decide +kernel
+                · have nz6 : ¬ (48 + d6 = 48) := by omega
+                  de_simp [Gen.de_DE_24, lstrip0, Spec.de24, dot24, dropZeros, hw1, hw2, hw3, hw4, hw5, hw6, hw7, hw8, hw9, i0, i9, z6, nz6, hA, hA', g9, intChar_ascii hU, h1, h2, h3, h4, h5, h6, h7, h8, h9, h10]
+                  clear hw1 hw2 hw3 hw4 hw5 hw6 hw7 hw8 hw9
+                  generalize (d6 + 1) % 11 + ((d7 * 2 + 2) % 11 + ((d8 * 3 + 3) % 11 + ((d9 + 1) % 11))) = S
+                  have e : ((S : Int) % 10) = ((S % 10 : Nat) : Int) := by omega
+                  simp only [natToInt, e]
+                  have hr : S % 10 < 10 := Nat.mod_lt _ (by decide)
+                  generalize S % 10 = r at hr ⊢
+                  clear e
+                  revert hr; revert r; revert h10; revert d10
+                  decide +kernel
+              · have nz5 : ¬ (48 + d5 = 48) := by omega
+                de_simp [Gen.de_DE_24, lstrip0, Spec.de24, dot24, dropZeros, hw1, hw2, hw3, hw4, hw5, hw6, hw7, hw8, hw9, i0, i9, z5, nz5, hA, hA', g9, intChar_ascii hU, h1, h2, h3, h4, h5, h6, h7, h8, h9, h10]
+                clear hw1 hw2 hw3 hw4 hw5 hw6 hw7 hw8 hw9
+                generalize (d5 + 1) % 11 + ((d6 * 2 + 2) % 11 + ((d7 * 3 + 3) % 11 + ((d8 + 1) % 11 + ((d9 * 2 + 2) % 11)))) = S
+                have e : ((S : Int) % 10) = ((S % 10 : Nat) : Int) := by omega
+                simp only [natToInt, e]
+                have hr : S % 10 < 10 := Nat.mod_lt _ (by decide)
+                generalize S % 10 = r at hr ⊢
+                clear e
+                revert hr; revert r; revert h10; revert d10
+                decide +kernel
+            · have nz4 : ¬ (48 + d4 = 48) := by omega
+              de_simp [Gen.de_DE_24, lstrip0, Spec.de24, dot24, dropZeros, hw1, hw2, hw3, hw4, hw5, hw6, hw7, hw8, hw9, i0, i9, z4, nz4, hA, hA', g9, intChar_ascii hU, h1, h2, h3, h4, h5, h6, h7, h8, h9, h10]
+              clear hw1 hw2 hw3 hw4 hw5 hw6 hw7 hw8 hw9
+              generalize (d4 + 1) % 11 + ((d5 * 2 + 2) % 11 + ((d6 * 3 + 3) % 11 + ((d7 + 1) % 11 + ((d8 * 2 + 2) % 11 + ((d9 * 3 + 3) % 11))))) = S
+              have e : ((S : Int) % 10) = ((S % 10 : Nat) : Int) := by omega
+              simp only [natToInt, e]
+              have hr : S % 10 < 10 := Nat.mod_lt _ (by decide)
+              generalize S % 10 = r at hr ⊢
+              clear e
+              revert hr; revert r; revert h10; revert d10
+              decide +kernel
+          · have nz3 : ¬ (48 + d3 = 48) := by omega
+            de_simp [Gen.de_DE_24, lstrip0, Spec.de24, dot24, dropZeros, hw1, hw2, hw3, hw4, hw5, hw6, hw7, hw8, hw9, i0, i9, z3, nz3, hA, hA', g9, intChar_ascii hU, h1, h2, h3, h4, h5, h6, h7, h8, h9, h10]
+            clear hw1 hw2 hw3 hw4 hw5 hw6 hw7 hw8 hw9
+            generalize (d3 + 1) % 11 + ((d4 * 2 + 2) % 11 + ((d5 * 3 + 3) % 11 + ((d6 + 1) % 11 + ((d7 * 2 + 2) % 11 + ((d8 * 3 + 3) % 11 + ((d9 + 1) % 11)))))) = S
+            have e : ((S : Int) % 10) = ((S % 10 : Nat) : Int) := by omega
+            simp only [natToInt, e]
+            have hr : S % 10 < 10 := Nat.mod_lt _ (by decide)
+            generalize S % 10 = r at hr ⊢
+            clear e
+            revert hr; revert r; revert h10; revert d10
+            decide +kernel
+        · have nz2 : ¬ (48 + d2 = 48) := by omega
+          de_simp [Gen.de_DE_24, lstrip0, Spec.de24, dot24, dropZeros, hw1, hw2, hw3, hw4, hw5, hw6, hw7, hw8, hw9, i0, i9, z2, nz2, hA, hA', g9, intChar_ascii hU, h1, h2, h3, h4, h5, h6, h7, h8, h9, h10]
+          clear hw1 hw2 hw3 hw4 hw5 hw6 hw7 hw8 hw9
+          generalize (d2 + 1) % 11 + ((d3 * 2 + 2) % 11 + ((d4 * 3 + 3) % 11 + ((d5 + 1) % 11 + ((d6 * 2 + 2) % 11 + ((d7 * 3 + 3) % 11 + ((d8 + 1) % 11 + ((d9 * 2 + 2) % 11))))))) = S
+          have e : ((S : Int) % 10) = ((S % 10 : Nat) : Int) := by omega
+          simp only [natToInt, e]
+          have hr : S % 10 < 10 := Nat.mod_lt _ (by decide)
+          generalize S % 10 = r at hr ⊢
+          clear e
+          revert hr; revert r; revert h10; revert d10
+          decide +kernel
+      · have nz1 : ¬ (48 + d1 = 48) := by omega
+        de_simp [Gen.de_DE_24, lstrip0, Spec.de24, dot24, dropZeros, hw1, hw2, hw3, hw4, hw5, hw6, hw7, hw8, hw9, i0, i9, z1, nz1, hA, hA', g9, intChar_ascii hU, h1, h2, h3, h4, h5, h6, h7, h8, h9, h10]
+        clear hw1 hw2 hw3 hw4 hw5 hw6 hw7 hw8 hw9
+        generalize (d1 + 1) % 11 + ((d2 * 2 + 2) % 11 + ((d3 * 3 + 3) % 11 + ((d4 + 1) % 11 + ((d5 * 2 + 2) % 11 + ((d6 * 3 + 3) % 11 + ((d7 + 1) % 11 + ((d8 * 2 + 2) % 11 + ((d9 * 3 + 3) % 11)))))))) = S
+        have e : ((S : Int) % 10) = ((S % 10 : Nat) : Int) := by omega
+        simp only [natToInt, e]
+        have hr : S % 10 < 10 := Nat.mod_lt _ (by decide)
+        generalize S % 10 = r at hr ⊢
+        clear e
+        revert hr; revert r; revert h10; revert d10
+        decide +kernel
+
+set_option maxHeartbeats 32000000 in
+/-- Method 68 (see `Spec.de68`): ten-digit numbers need a 9 as fourth digit and use six digits;
+400000000…499999999 is not checked; nine-digit and shorter numbers are tried with all digits and
+then with the digits d3, d4 left out. -/
+theorem de68 (U : Unicode) (hU : U.WF) (d1 d2 d3 d4 d5 d6 d7 d8 d9 d10 : Nat)
+    (h1 : d1 < 10) (h2 : d2 < 10) (h3 : d3 < 10) (h4 : d4 < 10) (h5 : d5 < 10) (h6 : d6 < 10)
+    (h7 : d7 < 10) (h8 : d8 < 10) (h9 : d9 < 10) (h10 : d10 < 10) (sc : Scratch) :
+    deVerdict (Gen.de_DE_68.validateM U [acct d1 d2 d3 d4 d5 d6 d7 d8 d9 d10] sc).2 = true ∧
+    deAccepts (Gen.de_DE_68.validateM U [acct d1 d2 d3 d4 d5 d6 d7 d8 d9 d10] sc).2 =
+      Spec.de68 d1 d2 d3 d4 d5 d6 d7 d8 d9 d10 := by
+  have hw1 : cycleWeights Gen.de_DE_68.weights 1 = [2] := by decide
+  have hw2 : cycleWeights Gen.de_DE_68.weights 2 = [2, 1] := by decide
+  have hw3 : cycleWeights Gen.de_DE_68.weights 3 = [2, 1, 2] := by decide
+  have hw4 : cycleWeights Gen.de_DE_68.weights 4 = [2, 1, 2, 1] := by decide
+  have hw5 : cycleWeights Gen.de_DE_68.weights 5 = [2, 1, 2, 1, 2] := by decide
+  have hw6 : cycleWeights Gen.de_DE_68.weights 6 = [2, 1, 2, 1, 2, 1] := by decide
+  have hw7 : cycleWeights Gen.de_DE_68.weights 7 = [2, 1, 2, 1, 2, 1, 2] := by decide
+  have hw8 : cycleWeights Gen.de_DE_68.weights 8 = [2, 1, 2, 1, 2, 1, 2, 1] := by decide
+  simp only [Gen.de_DE_68] at hw1 hw2 hw3 hw4 hw5 hw6 hw7 hw8
+  have i0 : U.intChar 48 = .ok 0 := intChar_ascii hU (by decide : 0 < 10)
+  have i9 : U.intChar 57 = .ok 9 := intChar_ascii hU (by decide : 9 < 10)
+  have hint := pyIntStr_acct hU d1 d2 d3 d4 d5 d6 d7 d8 d9 d10 h1 h2 h3 h4 h5 h6 h7 h8 h9 h10
+  by_cases z1 : d1 = 0
+  · by_cases g4 : d2 = 4
+    · subst z1 g4
+      have hn : 400000000 ≤ num [0, 4, d3, d4, d5, d6, d7, d8, d9, d10] 0 ∧
+          num [0, 4, d3, d4, d5, d6, d7, d8, d9, d10] 0 ≤ 499999999 := by
+        simp only [num]; omega
+      de_simp [Gen.de_DE_68, Spec.de68, hint, hn.1, hn.2, deVerdict, deAccepts]
+    · have hn : ¬ (400000000 ≤ num [d1, d2, d3, d4, d5, d6, d7, d8, d9, d10] 0) ∨ ¬ (num [d1, d2, d3, d4, d5, d6, d7, d8, d9, d10] 0 ≤ 499999999) := by
+        subst z1; simp only [num]; omega
+      subst z1
+      rcases hn with hn | hn
+      all_goals (
+        by_cases z2 : d2 = 0
+        · subst z2
+          by_cases z3 : d3 = 0
+          · subst z3
+            by_cases z4 : d4 = 0
+            · subst z4
+              by_cases z5 : d5 = 0
+              · subst z5
+                by_cases z6 : d6 = 0
+                · subst z6
+                  by_cases z7 : d7 = 0
+                  · subst z7
+                    by_cases z8 : d8 = 0
+                    · subst z8
+                      by_cases z9 : d9 = 0
+                      · subst z9
+                        de_simp [Gen.de_DE_68, rstrip0, lstrip0, Spec.de68, hint, hw1, hw2, hw3, hw4, hw5, hw6, hw7, hw8, i0, i9, hn, g4, intChar_ascii hU, h1, h2, h3, h4, h5, h6, h7, h8, h9, h10]
+                        clear hw1 hw2 hw3 hw4 hw5 hw6 hw7 hw8 hint
+                        simp only [natToInt, rule10]
+                        clear hn
+                        revert h10; revert d10
+                        decide +kernel
+                      · have nz9 : ¬ (48 + d9 = 48) := by omega
+                        de_simp [Gen.de_DE_68, rstrip0, lstrip0, Spec.de68, hint, hw1, hw2, hw3, hw4, hw5, hw6, hw7, hw8, i0, i9, hn, g4, z9, nz9, intChar_ascii hU, h1, h2, h3, h4, h5, h6, h7, h8, h9, h10]
+                        clear hw1 hw2 hw3 hw4 hw5 hw6 hw7 hw8 hint
+                        generalize digitSum (d9 * 2) = S1
+                        have eS1 : ((S1 : Int) % 10) = ((S1 % 10 : Nat) : Int) := by omega
+                        simp only [natToInt, rule10, eS1]
+                        have hrS1 : S1 % 10 < 10 := Nat.mod_lt _ (by decide)
+                        generalize S1 % 10 = rS1 at hrS1 ⊢
+                        clear eS1
+                        clear hn
+                        revert hrS1; revert rS1
+                        revert h10; revert d10
+                        decide +kernel
+                    · have nz8 : ¬ (48 + d8 = 48) := by omega
+                      de_simp [Gen.de_DE_68, rstrip0, lstrip0, Spec.de68, hint, hw1, hw2, hw3, hw4, hw5, hw6, hw7, hw8, i0, i9, hn, g4, z8, nz8, intChar_ascii hU, h1, h2, h3, h4, h5, h6, h7, h8, h9, h10]
+                      clear hw1 hw2 hw3 hw4 hw5 hw6 hw7 hw8 hint
+                      generalize digitSum (d9 * 2) + (digitSum d8) = S1
+                      have eS1 : ((S1 : Int) % 10) = ((S1 % 10 : Nat) : Int) := by omega
+                      simp only [natToInt, rule10, eS1]
+                      have hrS1 : S1 % 10 < 10 := Nat.mod_lt _ (by decide)
+                      generalize S1 % 10 = rS1 at hrS1 ⊢
+                      clear eS1
+                      clear hn
+                      revert hrS1; revert rS1
+                      revert h10; revert d10
+                      decide +kernel
+                  · have nz7 : ¬ (48 + d7 = 48) := by omega
+                    de_simp [Gen.de_DE_68, rstrip0, lstrip0, Spec.de68, hint, hw1, hw2, hw3, hw4, hw5, hw6, hw7, hw8, i0, i9, hn, g4, z7, nz7, intChar_ascii hU, h1, h2, h3, h4, h5, h6, h7, h8, h9, h10]
+                    clear hw1 hw2 hw3 hw4 hw5 hw6 hw7 hw8 hint
+                    generalize digitSum (d9 * 2) + (digitSum d8 + (digitSum (d7 * 2))) = S1
+                    have eS1 : ((S1 : Int) % 10) = ((S1 % 10 : Nat) : Int) := by omega
+                    simp only [natToInt, rule10, eS1]
+                    have hrS1 : S1 % 10 < 10 := Nat.mod_lt _ (by decide)
+                    generalize S1 % 10 = rS1 at hrS1 ⊢
+                    clear eS1
+                    clear hn
+                    revert hrS1; revert rS1
+                    revert h10; revert d10
+                    decide +kernel
+                · have nz6 : ¬ (48 + d6 = 48) := by omega
+                  de_simp [Gen.de_DE_68, rstrip0, lstrip0, Spec.de68, hint, hw1, hw2, hw3, hw4, hw5, hw6, hw7, hw8, i0, i9, hn, g4, z6, nz6, intChar_ascii hU, h1, h2, h3, h4, h5, h6, h7, h8, h9, h10]
+                  clear hw1 hw2 hw3 hw4 hw5 hw6 hw7 hw8 hint
+                  generalize digitSum (d9 * 2) + (digitSum d8 + (digitSum (d7 * 2) + (digitSum d6))) = S1
+                  have eS1 : ((S1 : Int) % 10) = ((S1 % 10 : Nat) : Int) := by omega
+                  simp only [natToInt, rule10, eS1]
+                  have hrS1 : S1 % 10 < 10 := Nat.mod_lt _ (by decide)
+                  generalize S1 % 10 = rS1 at hrS1 ⊢
+                  clear eS1
+                  clear hn
+                  revert hrS1; revert rS1
+                  revert h10; revert d10
+                  decide +kernel
+              · have nz5 : ¬ (48 + d5 = 48) := by omega
+                de_simp [Gen.de_DE_68, rstrip0, lstrip0, Spec.de68, hint, hw1, hw2, hw3, hw4, hw5, hw6, hw7, hw8, i0, i9, hn, g4, z5, nz5, intChar_ascii hU, h1, h2, h3, h4, h5, h6, h7, h8, h9, h10]
+                clear hw1 hw2 hw3 hw4 hw5 hw6 hw7 hw8 hint
+                generalize digitSum (d9 * 2) + (digitSum d8 + (digitSum (d7 * 2) + (digitSum d6 + (digitSum (d5 * 2))))) = S1
+                have eS1 : ((S1 : Int) % 10) = ((S1 % 10 : Nat) : Int) := by omega
+                simp only [natToInt, rule10, eS1]
+                have hrS1 : S1 % 10 < 10 := Nat.mod_lt _ (by decide)
+                generalize S1 % 10 = rS1 at hrS1 ⊢
+                clear eS1
+                clear hn
+                revert hrS1; revert rS1
+                revert h10; revert d10
+                decide +kernel
+            · have nz4 : ¬ (48 + d4 = 48) := by omega
+              by_cases y5 : d5 = 0
+              · subst y5
+                by_cases y6 : d6 = 0
+                · subst y6
+                  by_cases y7 : d7 = 0
+                  · subst y7
+                    by_cases y8 : d8 = 0
+                    · subst y8
+                      by_cases y9 : d9 = 0
+                      · subst y9
+                        de_simp [Gen.de_DE_68, rstrip0, lstrip0, Spec.de68, hint, hw1, hw2, hw3, hw4, hw5, hw6, hw7, hw8, i0, i9, hn, g4, z4, nz4, intChar_ascii hU, h1, h2, h3, h4, h5, h6, h7, h8, h9, h10]
+                        clear hw1 hw2 hw3 hw4 hw5 hw6 hw7 hw8 hint
+                        generalize digitSum d4 = S1
+                        have eS1 : ((S1 : Int) % 10) = ((S1 % 10 : Nat) : Int) := by omega
+                        simp only [natToInt, rule10, eS1]
+                        have hrS1 : S1 % 10 < 10 := Nat.mod_lt _ (by decide)
+                        generalize S1 % 10 = rS1 at hrS1 ⊢
+                        clear eS1
+                        clear hn
+                        revert hrS1; revert rS1
+                        revert h10; revert d10
+                        decide +kernel
+                      · have ny9 : ¬ (48 + d9 = 48) := by omega
+                        de_simp [Gen.de_DE_68, rstrip0, lstrip0, Spec.de68, hint, hw1, hw2, hw3, hw4, hw5, hw6, hw7, hw8, i0, i9, hn, g4, z4, nz4, y9, ny9, intChar_ascii hU, h1, h2, h3, h4, h5, h6, h7, h8, h9, h10]
+                        clear hw1 hw2 hw3 hw4 hw5 hw6 hw7 hw8 hint
+                        generalize digitSum (d9 * 2) + (digitSum d4) = S1
+                        generalize digitSum (d9 * 2) = S2
+                        have eS1 : ((S1 : Int) % 10) = ((S1 % 10 : Nat) : Int) := by omega
+                        have eS2 : ((S2 : Int) % 10) = ((S2 % 10 : Nat) : Int) := by omega
+                        simp only [natToInt, rule10, eS1, eS2]
+                        have hrS1 : S1 % 10 < 10 := Nat.mod_lt _ (by decide)
+                        generalize S1 % 10 = rS1 at hrS1 ⊢
+                        have hrS2 : S2 % 10 < 10 := Nat.mod_lt _ (by decide)
+                        generalize S2 % 10 = rS2 at hrS2 ⊢
+                        clear eS1 eS2
+                        clear hn
+                        revert hrS1; revert rS1
+                        revert hrS2; revert rS2
+                        revert h10; revert d10
+                        decide +kernel
+                    · have ny8 : ¬ (48 + d8 = 48) := by omega
+                      de_simp [Gen.de_DE_68, rstrip0, lstrip0, Spec.de68, hint, hw1, hw2, hw3, hw4, hw5, hw6, hw7, hw8, i0, i9, hn, g4, z4, nz4, y8, ny8, intChar_ascii hU, h1, h2, h3, h4, h5, h6, h7, h8, h9, h10]
+                      clear hw1 hw2 hw3 hw4 hw5 hw6 hw7 hw8 hint
+                      generalize digitSum (d9 * 2) + (digitSum d8 + (digitSum d4)) = S1
+                      generalize digitSum (d9 * 2) + (digitSum d8) = S2
+                      have eS1 : ((S1 : Int) % 10) = ((S1 % 10 : Nat) : Int) := by omega
+                      have eS2 : ((S2 : Int) % 10) = ((S2 % 10 : Nat) : Int) := by omega
+                      simp only [natToInt, rule10, eS1, eS2]
+                      have hrS1 : S1 % 10 < 10 := Nat.mod_lt _ (by decide)
+                      generalize S1 % 10 = rS1 at hrS1 ⊢
+                      have hrS2 : S2 % 10 < 10 := Nat.mod_lt _ (by decide)
+                      generalize S2 % 10 = rS2 at hrS2 ⊢
+                      clear eS1 eS2
+                      clear hn
+                      revert hrS1; revert rS1
+                      revert hrS2; revert rS2
+                      revert h10; revert d10
+                      decide +kernel
+                  · have ny7 : ¬ (48 + d7 = 48) := by omega
+                    de_simp [Gen.de_DE_68, rstrip0, lstrip0, Spec.de68, hint, hw1, hw2, hw3, hw4, hw5, hw6, hw7, hw8, i0, i9, hn, g4, z4, nz4, y7, ny7, intChar_ascii hU, h1, h2, h3, h4, h5, h6, h7, h8, h9, h10]
+                    clear hw1 hw2 hw3 hw4 hw5 hw6 hw7 hw8 hint
+                    generalize digitSum (d9 * 2) + (digitSum d8 + (digitSum (d7 * 2) + (digitSum d4))) = S1
+                    generalize digitSum (d9 * 2) + (digitSum d8 + (digitSum (d7 * 2))) = S2
+                    have eS1 : ((S1 : Int) % 10) = ((S1 % 10 : Nat) : Int) := by omega
+                    have eS2 : ((S2 : Int) % 10) = ((S2 % 10 : Nat) : Int) := by omega
+                    simp only [natToInt, rule10, eS1, eS2]
+                    have hrS1 : S1 % 10 < 10 := Nat.mod_lt _ (by decide)
+                    generalize S1 % 10 = rS1 at hrS1 ⊢
+                    have hrS2 : S2 % 10 < 10 := Nat.mod_lt _ (by decide)
+                    generalize S2 % 10 = rS2 at hrS2 ⊢
+                    clear eS1 eS2
+                    clear hn
+                    revert hrS1; revert rS1
+                    revert hrS2; revert rS2
+                    revert h10; revert d10
+                    decide +kernel
+                · have ny6 : ¬ (48 + d6 = 48) := by omega
+                  de_simp [Gen.de_DE_68, rstrip0, lstrip0, Spec.de68, hint, hw1, hw2, hw3, hw4, hw5, hw6, hw7, hw8, i0, i9, hn, g4, z4, nz4, y6, ny6, intChar_ascii hU, h1, h2, h3, h4, h5, h6, h7, h8, h9, h10]
+                  clear hw1 hw2 hw3 hw4 hw5 hw6 hw7 hw8 hint
+                  generalize digitSum (d9 * 2) + (digitSum d8 + (digitSum (d7 * 2) + (digitSum d6 + (digitSum d4)))) = S1
+                  generalize digitSum (d9 * 2) + (digitSum d8 + (digitSum (d7 * 2) + (digitSum d6))) = S2
+                  have eS1 : ((S1 : Int) % 10) = ((S1 % 10 : Nat) : Int) := by omega
+                  have eS2 : ((S2 : Int) % 10) = ((S2 % 10 : Nat) : Int) := by omega
+                  simp only [natToInt, rule10, eS1, eS2]
+                  have hrS1 : S1 % 10 < 10 := Nat.mod_lt _ (by decide)
+                  generalize S1 % 10 = rS1 at hrS1 ⊢
+                  have hrS2 : S2 % 10 < 10 := Nat.mod_lt _ (by decide)
+                  generalize S2 % 10 = rS2 at hrS2 ⊢
+                  clear eS1 eS2
+                  clear hn
+                  revert hrS1; revert rS1
+                  revert hrS2; revert rS2
+                  revert h10; revert d10
+                  decide +kernel
+              · have ny5 : ¬ (48 + d5 = 48) := by omega
+                de_simp [Gen.de_DE_68, rstrip0, lstrip0, Spec.de68, hint, hw1, hw2, hw3, hw4, hw5, hw6, hw7, hw8, i0, i9, hn, g4, z4, nz4, y5, ny5, intChar_ascii hU, h1, h2, h3, h4, h5, h6, h7, h8, h9, h10]
+                clear hw1 hw2 hw3 hw4 hw5 hw6 hw7 hw8 hint
+                generalize digitSum (d9 * 2) + (digitSum d8 + (digitSum (d7 * 2) + (digitSum d6 + (digitSum (d5 * 2) + (digitSum d4))))) = S1
+                generalize digitSum (d9 * 2) + (digitSum d8 + (digitSum (d7 * 2) + (digitSum d6 + (digitSum (d5 * 2))))) = S2
+                have eS1 : ((S1 : Int) % 10) = ((S1 % 10 : Nat) : Int) := by omega
+                have eS2 : ((S2 : Int) % 10) = ((S2 % 10 : Nat) : Int) := by omega
+                simp only [natToInt, rule10, eS1, eS2]
+                have hrS1 : S1 % 10 < 10 := Nat.mod_lt _ (by decide)
+                generalize S1 % 10 = rS1 at hrS1 ⊢
+                have hrS2 : S2 % 10 < 10 := Nat.mod_lt _ (by decide)
+                generalize S2 % 10 = rS2 at hrS2 ⊢
+                clear eS1 eS2
+                clear hn
+                revert hrS1; revert rS1
+                revert hrS2; revert rS2
+                revert h10; revert d10
+                decide +kernel
+          · have nz3 : ¬ (48 + d3 = 48) := by omega
+            by_cases y5 : d5 = 0
+            · subst y5
+              by_cases y6 : d6 = 0
+              · subst y6
+                by_cases y7 : d7 = 0
+                · subst y7
+                  by_cases y8 : d8 = 0
+                  · subst y8
+                    by_cases y9 : d9 = 0
+                    · subst y9
+                      de_simp [Gen.de_DE_68, rstrip0, lstrip0, Spec.de68, hint, hw1, hw2, hw3, hw4, hw5, hw6, hw7, hw8, i0, i9, hn, g4, z3, nz3, intChar_ascii hU, h1, h2, h3, h4, h5, h6, h7, h8, h9, h10]
+                      clear hw1 hw2 hw3 hw4 hw5 hw6 hw7 hw8 hint
+                      generalize digitSum d4 + (digitSum (d3 * 2)) = S1
+                      have eS1 : ((S1 : Int) % 10) = ((S1 % 10 : Nat) : Int) := by omega
+                      simp only [natToInt, rule10, eS1]
+                      have hrS1 : S1 % 10 < 10 := Nat.mod_lt _ (by decide)
+                      generalize S1 % 10 = rS1 at hrS1 ⊢
+                      clear eS1
+                      clear hn
+                      revert hrS1; revert rS1
+                      revert h10; revert d10
+                      decide +kernel
+                    · have ny9 : ¬ (48 + d9 = 48) := by omega
+                      de_simp [Gen.de_DE_68, rstrip0, lstrip0, Spec.de68, hint, hw1, hw2, hw3, hw4, hw5, hw6, hw7, hw8, i0, i9, hn, g4, z3, nz3, y9, ny9, intChar_ascii hU, h1, h2, h3, h4, h5, h6, h7, h8, h9, h10]
+                      clear hw1 hw2 hw3 hw4 hw5 hw6 hw7 hw8 hint
+                      generalize digitSum (d9 * 2) + (digitSum d4 + (digitSum (d3 * 2))) = S1
+                      generalize digitSum (d9 * 2) = S2
+                      have eS1 : ((S1 : Int) % 10) = ((S1 % 10 : Nat) : Int) := by omega
+                      have eS2 : ((S2 : Int) % 10) = ((S2 % 10 : Nat) : Int) := by omega
+                      simp only [natToInt, rule10, eS1, eS2]
+                      have hrS1 : S1 % 10 < 10 := Nat.mod_lt _ (by decide)
+                      generalize S1 % 10 = rS1 at hrS1 ⊢
+                      have hrS2 : S2 % 10 < 10 := Nat.mod_lt _ (by decide)
+                      generalize S2 % 10 = rS2 at hrS2 ⊢
+                      clear eS1 eS2
+                      clear hn
+                      revert hrS1; revert rS1
+                      revert hrS2; revert rS2
+                      revert h10; revert d10
+                      decide +kernel
+                  · have ny8 : ¬ (48 + d8 = 48) := by omega
+                    de_simp [Gen.de_DE_68, rstrip0, lstrip0, Spec.de68, hint, hw1, hw2, hw3, hw4, hw5, hw6, hw7, hw8, i0, i9, hn, g4, z3, nz3, y8, ny8, intChar_ascii hU, h1, h2, h3, h4, h5, h6, h7, h8, h9, h10]
+                    clear hw1 hw2 hw3 hw4 hw5 hw6 hw7 hw8 hint
+                    generalize digitSum (d9 * 2) + (digitSum d8 + (digitSum d4 + (digitSum (d3 * 2)))) = S1
+                    generalize digitSum (d9 * 2) + (digitSum d8) = S2
+                    have eS1 : ((S1 : Int) % 10) = ((S1 % 10 : Nat) : Int) := by omega
+                    have eS2 : ((S2 : Int) % 10) = ((S2 % 10 : Nat) : Int) := by omega
+                    simp only [natToInt, rule10, eS1, eS2]
+                    have hrS1 : S1 % 10 < 10 := Nat.mod_lt _ (by decide)
+                    generalize S1 % 10 = rS1 at hrS1 ⊢
+                    have hrS2 : S2 % 10 < 10 := Nat.mod_lt _ (by decide)
+                    generalize S2 % 10 = rS2 at hrS2 ⊢
+                    clear eS1 eS2
+                    clear hn
+                    revert hrS1; revert rS1
+                    revert hrS2; revert rS2
+                    revert h10; revert d10
+                    decide +kernel
+                · have ny7 : ¬ (48 + d7 = 48) := by omega
+                  de_simp [Gen.de_DE_68, rstrip0, lstrip0, Spec.de68, hint, hw1, hw2, hw3, hw4, hw5, hw6, hw7, hw8, i0, i9, hn, g4, z3, nz3, y7, ny7, intChar_ascii hU, h1, h2, h3, h4, h5, h6, h7, h8, h9, h10]
+                  clear hw1 hw2 hw3 hw4 hw5 hw6 hw7 hw8 hint
+                  generalize digitSum (d9 * 2) + (digitSum d8 + (digitSum (d7 * 2) + (digitSum d4 + (digitSum (d3 * 2))))) = S1
+                  generalize digitSum (d9 * 2) + (digitSum d8 + (digitSum (d7 * 2))) = S2
+                  have eS1 : ((S1 : Int) % 10) = ((S1 % 10 : Nat) : Int) := by omega
+                  have eS2 : ((S2 : Int) % 10) = ((S2 % 10 : Nat) : Int) := by omega
+                  simp only [natToInt, rule10, eS1, eS2]
+                  have hrS1 : S1 % 10 < 10 := Nat.mod_lt _ (by decide)
+                  generalize S1 % 10 = rS1 at hrS1 ⊢
+                  have hrS2 : S2 % 10 < 10 := Nat.mod_lt _ (by decide)
+                  generalize S2 % 10 = rS2 at hrS2 ⊢
+                  clear eS1 eS2
+                  clear hn
+                  revert hrS1; revert rS1
+                  revert hrS2; revert rS2
+                  revert h10; revert d10
+                  decide +kernel
+              · have ny6 : ¬ (48 + d6 = 48) := by omega
+                de_simp [Gen.de_DE_68, rstrip0, lstrip0, Spec.de68, hint, hw1, hw2, hw3, hw4, hw5, hw6, hw7, hw8, i0, i9, hn, g4, z3, nz3, y6, ny6, intChar_ascii hU, h1, h2, h3, h4, h5, h6, h7, h8, h9, h10]
+                clear hw1 hw2 hw3 hw4 hw5 hw6 hw7 hw8 hint
+                generalize digitSum (d9 * 2) + (digitSum d8 + (digitSum (d7 * 2) + (digitSum d6 + (digitSum d4 + (digitSum (d3 * 2)))))) = S1
+                generalize digitSum (d9 * 2) + (digitSum d8 + (digitSum (d7 * 2) + (digitSum d6))) = S2
+                have eS1 : ((S1 : Int) % 10) = ((S1 % 10 : Nat) : Int) := by omega
+                have eS2 : ((S2 : Int) % 10) = ((S2 % 10 : Nat) : Int) := by omega
+                simp only [natToInt, rule10, eS1, eS2]
+                have hrS1 : S1 % 10 < 10 := Nat.mod_lt _ (by decide)
+                generalize S1 % 10 = rS1 at hrS1 ⊢
+                have hrS2 : S2 % 10 < 10 := Nat.mod_lt _ (by decide)
+                generalize S2 % 10 = rS2 at hrS2 ⊢
+                clear eS1 eS2
+                clear hn
+                revert hrS1; revert rS1
+                revert hrS2; revert rS2
+                revert h10; revert d10
+                decide +kernel
+            · have ny5 : ¬ (48 + d5 = 48) := by omega
+              de_simp [Gen.de_DE_68, rstrip0, lstrip0, Spec.de68, hint, hw1, hw2, hw3, hw4, hw5, hw6, hw7, hw8, i0, i9, hn, g4, z3, nz3, y5, ny5, intChar_ascii hU, h1, h2, h3, h4, h5, h6, h7, h8, h9, h10]
+              clear hw1 hw2 hw3 hw4 hw5 hw6 hw7 hw8 hint
+              generalize digitSum (d9 * 2) + (digitSum d8 + (digitSum (d7 * 2) + (digitSum d6 + (digitSum (d5 * 2) + (digitSum d4 + (digitSum (d3 * 2))))))) = S1
+              generalize digitSum (d9 * 2) + (digitSum d8 + (digitSum (d7 * 2) + (digitSum d6 + (digitSum (d5 * 2))))) = S2
+              have eS1 : ((S1 : Int) % 10) = ((S1 % 10 : Nat) : Int) := by omega
+              have eS2 : ((S2 : Int) % 10) = ((S2 % 10 : Nat) : Int) := by omega
+              simp only [natToInt, rule10, eS1, eS2]
+              have hrS1 : S1 % 10 < 10 := Nat.mod_lt _ (by decide)
+              generalize S1 % 10 = rS1 at hrS1 ⊢
+              have hrS2 : S2 % 10 < 10 := Nat.mod_lt _ (by decide)
+              generalize S2 % 10 = rS2 at hrS2 ⊢
+              clear eS1 eS2
+              clear hn
+              revert hrS1; revert rS1
+              revert hrS2; revert rS2
+              revert h10; revert d10
+              decide +kernel
+        · have nz2 : ¬ (48 + d2 = 48) := by omega
+          de_simp [Gen.de_DE_68, rstrip0, lstrip0, Spec.de68, hint, hw1, hw2, hw3, hw4, hw5, hw6, hw7, hw8, i0, i9, hn, g4, z2, nz2, intChar_ascii hU, h1, h2, h3, h4, h5, h6, h7, h8, h9, h10]
+          clear hw1 hw2 hw3 hw4 hw5 hw6 hw7 hw8 hint
+          generalize digitSum (d9 * 2) + (digitSum d8 + (digitSum (d7 * 2) + (digitSum d6 + (digitSum (d5 * 2) + (digitSum d4 + (digitSum (d3 * 2) + (digitSum d2))))))) = S1
+          generalize digitSum (d9 * 2) + (digitSum d8 + (digitSum (d7 * 2) + (digitSum d6 + (digitSum (d5 * 2) + (digitSum d2))))) = S2
+          have eS1 : ((S1 : Int) % 10) = ((S1 % 10 : Nat) : Int) := by omega
+          have eS2 : ((S2 : Int) % 10) = ((S2 % 10 : Nat) : Int) := by omega
+          simp only [natToInt, rule10, eS1, eS2]
+          have hrS1 : S1 % 10 < 10 := Nat.mod_lt _ (by decide)
+          generalize S1 % 10 = rS1 at hrS1 ⊢
+          have hrS2 : S2 % 10 < 10 := Nat.mod_lt _ (by decide)
+          generalize S2 % 10 = rS2 at hrS2 ⊢
+          clear eS1 eS2
+          clear hn
+          revert hrS1; revert rS1
+          revert hrS2; revert rS2
+          revert h10; revert d10
+          decide +kernel
+      )
+  · have hn : ¬ (num [d1, d2, d3, d4, d5, d6, d7, d8, d9, d10] 0 ≤ 499999999) := by simp only [num]; omega
+    have nz1 : ¬ (48 + d1 = 48) := by omega
+    by_cases g9 : d4 = 9
+    · subst g9
+      de_simp [Gen.de_DE_68, rstrip0, lstrip0, Spec.de68, hint, hw1, hw2, hw3, hw4, hw5, hw6, hw7, hw8, i0, i9, hn, z1, nz1, intChar_ascii hU, h1, h2, h3, h4, h5, h6, h7, h8, h9, h10]
+      clear hw1 hw2 hw3 hw4 hw5 hw6 hw7 hw8 hint
+      generalize digitSum (d9 * 2) + (digitSum d8 + (digitSum (d7 * 2) + (digitSum d6 + (digitSum (d5 * 2) + digitSum 9)))) = S1
+      have eS1 : ((S1 : Int) % 10) = ((S1 % 10 : Nat) : Int) := by omega
+      simp only [natToInt, rule10, eS1]
+      have hrS1 : S1 % 10 < 10 := Nat.mod_lt _ (by decide)
+      generalize S1 % 10 = rS1 at hrS1 ⊢
+      clear eS1
+      clear hn nz1
+      revert hrS1; revert rS1
+      revert h10; revert d10
+      decide +kernel
+    · have c9 : ¬ (48 + d4 = 57) := by omega
+      de_simp [Gen.de_DE_68, rstrip0, lstrip0, Spec.de68, hint, hw1, hw2, hw3, hw4, hw5, hw6, hw7, hw8, i0, i9, hn, z1, nz1, g9, c9, deVerdict, deAccepts, intChar_ascii hU, h1, h2, h3, h4, h5, h6, h7, h8, h9, h10]
+
+
 end SV.Props.C07
